@@ -120,7 +120,11 @@ func (r *operationManager) pendingLinearizableOperations() []*Operation {
 // another round of heartbeats to be started for the operations that are still unverified.
 func (r *operationManager) markOperationsAsVerified(operations []*Operation) {
 	for _, operation := range operations {
-		operation.quorumVerified = true
+		// An operation that is no longer pending has been handed to the state
+		// machine, which reads it without holding the lock.
+		if _, ok := r.pendingReadOnly[operation]; ok {
+			operation.quorumVerified = true
+		}
 	}
 	r.shouldVerifyQuorum = true
 }
